@@ -183,17 +183,17 @@ func (k *Kauri) mergeContribution(currentSignature hotstuff.QuorumSignature) err
 	if k.aggContrib == nil {
 		// first contribution
 		k.aggContrib = currentSignature
-		return nil
+	} else {
+		if err := kauri.CanMergeContributions(currentSignature, k.aggContrib); err != nil {
+			return err
+		}
+		combSignature, err := k.auth.Combine(currentSignature, k.aggContrib)
+		if err != nil {
+			return fmt.Errorf("failed to combine signatures: %v", err)
+		}
+		k.aggContrib = combSignature
 	}
-	if err := kauri.CanMergeContributions(currentSignature, k.aggContrib); err != nil {
-		return err
-	}
-	combSignature, err := k.auth.Combine(currentSignature, k.aggContrib)
-	if err != nil {
-		return fmt.Errorf("failed to combine signatures: %v", err)
-	}
-	k.aggContrib = combSignature
-	if combSignature.Participants().Len() >= k.config.QuorumSize() {
+	if k.aggContrib.Participants().Len() >= k.config.QuorumSize() {
 		k.logger.Debug("Aggregated Complete QC and sending the event")
 		k.eventLoop.AddEvent(hotstuff.NewViewMsg{
 			SyncInfo: hotstuff.NewSyncInfoWith(hotstuff.NewQuorumCert(
